@@ -292,7 +292,7 @@ pub fn run(cfg: &Config) -> i32 {
     require_binaries(cfg);
     let tmp = scratch_dir(cfg, "c04");
     let budget = Duration::from_secs_f64(cfg.pick(45.0, 480.0) * cfg.scale);
-    let mut stats = parallel(cfg, "semantic", cfg.scaled(cfg.pick(8000, 1_000_000)), budget, |idx, r, st| semantic_case(cfg, &tmp, idx, r, st));
+    let mut stats = parallel(cfg, "semantic", cfg.scaled(cfg.pick(80_000, 2_000_000)), budget, |idx, r, st| semantic_case(cfg, &tmp, idx, r, st));
     let s2 = parallel(cfg, "refusal", cfg.scaled(cfg.pick(1500, 20_000)), Duration::from_secs(60), |idx, r, st| refusal_case(cfg, &tmp, idx, r, st));
     stats.merge(s2);
     let _ = std::fs::remove_dir_all(&tmp);
@@ -307,7 +307,7 @@ pub fn run(cfg: &Config) -> i32 {
                 "same oracle kit and conventions as C01; interpretations restricted to the program's vocabulary".into(),
                 "tightness is anthem's own verdict, as the property states (C11 checks that verdict)".into(),
             ],
-            floor: cfg.pick(10_000, 80_000),
+            floor: cfg.pick(100_000, 500_000),
             floor_counter: "definite_comparisons".into(),
             known_replayed: vec![],
             extra: J::obj(),
